@@ -76,10 +76,10 @@ SPEC = dict(
          "permute2x128 operands/immediates/store offsets of argmax_u8_avx2 and the load/store offsets of the "
          "f32 kernels, re-read from the source on every run (translate/maxi_tables.py), are those of the model. "
          "Correspondence run — corpus: one unique maximum in every column x first/last row of all-negative f32 and "
-         "of u8 matrices (1, 2, 5 rows), maxima in rows >= 256 of 300/520-row matrices (row index wider than 8 "
+         "of u8 matrices (1, 2, 5 rows) and of 16- and 48-column f32 matrices, maxima in rows >= 256 of 300/520-row matrices (row index wider than 8 "
          "bits) and a low/high-row tie, all-equal / all -inf / all +inf / signed-zero matrices, no rows, max_index around "
          "u32::MAX, end-to-end padding cases with L around the 32-column block size. Generated: 40% "
-         "StripedScores<f32,U32>, 30% <u8,U32>, 20% <f32,U16>, 10% end-to-end (ScoringMatrix with -inf "
+         "StripedScores<f32,U32>, 30% <u8,U32>, 10% <f32,U16>, 10% <f32,U48> (generic and SSE2 pipelines), 10% end-to-end (ScoringMatrix with -inf "
          "wildcard column, half of them produced by the library's own count->frequency->log-odds "
          "conversion, + DNA sequence -> score under each forced arm). Matrix contents: moderate scores, "
          "all negative, few distinct values (ties), arbitrary non-NaN bit patterns, log-odds like with "
@@ -91,7 +91,7 @@ SPEC = dict(
          "Pipeline::dispatch() under each forced arm, of StripedScores::{max,argmax,threshold} under each "
          "forced arm (+ scores[argmax]), and of linear Scores over the column-major cells; every answer is "
          "judged by the extracted Coq checker (PROPFAIL) and compared with the extracted kernel model "
-         "incl. exact coordinates and threshold order (DIFF). Non-trivial: distinct (kind, matrix, "
+         "incl. exact arg-max coordinates, maximum bit pattern and the threshold list as a set (DIFF). Non-trivial: distinct (kind, matrix, "
          "threshold) with at least one row / distinct end-to-end (matrix, sequence).",
     trusted_base=[
         "Coq 8.16.1 kernel (coqc; coqchk in the thorough tier), vm_compute in the Examples and in the 32-lane "
